@@ -243,8 +243,8 @@ def run(ctx):
         ctx.count()
         ctx.stat('%s_%s' % (c['mode'], (g.get('error') or ['ok'])[0] if isinstance(g, dict) else 'x'))
         ctx.nontriv((c['mode'], c['q'], json.dumps(c['A']), c.get('table_name')))
-    ctx.sample({'kind': 'sqlite', 'table_name': sq[0]['table_name'], 'model_sql': sq[0]['_sql'], 'implementation': ogot[oc.index(sq[0])]})
-    ctx.sample({'kind': 'list', 'query': cases[0]['q'], 'A': cases[0]['A'], 'implementation': {k: got[0].get(k) for k in ('sources_ok', 'alias', 'error')}})
+    ctx.sample_safe(lambda: {'kind': 'sqlite', 'table_name': sq[0]['table_name'], 'model_sql': sq[0]['_sql'], 'implementation': ogot[oc.index(sq[0])]})
+    ctx.sample_safe(lambda: {'kind': 'list', 'query': cases[0]['q'], 'A': cases[0]['A'], 'implementation': {k: got[0].get(k) for k in ('sources_ok', 'alias', 'error')}})
     ctx.rule = ('heap obligations regenerated from the source and re-proved (see notes); ' + str(len(HEAP_QUERIES)) + ' query shapes x {user writer that rewrites its argument, CSVWriter, caller rewriting the output table} x both ports over random tables (non-trivial = at least one row emitted); '
                 'every generated query of C01-C05 (succeeding and failing) over Python lists: deep snapshot + id() identity of input/join rows after the run, no output row is an input row object; '
                 'pandas dataframes (equals + dtypes), CSV input/join files (sha256 + mtime), sqlite file (sha256 + trace of every SQL statement = model sql_of_query) over 14 query shapes; '
